@@ -98,6 +98,8 @@ MUTANTS = [
          old='            task = std::move(m_queue.m_tasks.front());\n            m_queue.m_tasks.pop_front();\n', new='            task = std::move(m_queue.m_tasks.front());\n            m_queue.m_tasks.pop_front();\n\n            if (m_queue.m_tasks.empty())\n            {\n                m_queue.m_condition.notify_one();\n            }\n', more=[('        const std::scoped_lock lock(m_queue.m_mutex);\n        m_queue.m_stop = true;', '        std::unique_lock lock(m_queue.m_mutex);\n        m_queue.m_condition.wait(lock, [&] { return m_queue.m_tasks.empty(); });\n        m_queue.m_stop = true;')]),
     dict(property="C17", name="dtor-drains-queue-nobody-notifies", rule="R-C17-3", file="src/core/parallel.cpp",
          old='        const std::scoped_lock lock(m_queue.m_mutex);\n        m_queue.m_stop = true;', new='        std::unique_lock lock(m_queue.m_mutex);\n        m_queue.m_condition.wait(lock, [&] { return m_queue.m_tasks.empty(); });\n        m_queue.m_stop = true;', also=[("include/nano/core/parallel.h", "        m_condition.notify_one();", "        m_condition.notify_all();")]),
+    dict(property="C20", name="percentile-select-once-reads-neighbour", rule="R-C20-3", file="include/nano/core/stats.h", tu="src/wlearner/util.cpp",
+         old='    if (lpos == rpos)\n    {\n        return from_position(lpos);\n    }\n    else\n    {\n        const auto lvalue = from_position(lpos);\n        const auto rvalue = from_position(rpos);\n        return (lvalue + rvalue) / 2;\n    }', new='    const auto left   = from_position(lpos);\n    const auto lvalue = static_cast<double>(*left);\n    if (lpos == rpos)\n    {\n        return lvalue;\n    }\n    else\n    {\n        const auto rvalue = static_cast<double>(*std::next(left));\n        return (lvalue + rvalue) / 2;\n    }', more=[('        std::nth_element(begin, middle, end);\n        return static_cast<double>(*middle);', '        std::nth_element(begin, middle, end);\n        return middle;'), ('        std::advance(middle, pos);\n        return static_cast<double>(*middle);', '        std::advance(middle, pos);\n        return middle;')]),
     dict(property="C17", name="stop-set-outside-lock", rule="R-C17-1", file="src/core/parallel.cpp",
          old="""    {
         const std::scoped_lock lock(m_queue.m_mutex);
@@ -1281,6 +1283,10 @@ BENIGN = [
          old='    return std::max(tensor_size_t{1}, idiv(features.size(), concurrency));\n}\n', new='    return std::max(tensor_size_t{1}, idiv(features.size(), concurrency));\n}\n\nauto features_of_thread(const indices_cmap_t& features, const size_t concurrency, const tensor_size_t chunk)\n{\n    const auto chunksize = (features.size() + static_cast<tensor_size_t>(concurrency) - 1) / static_cast<tensor_size_t>(concurrency);\n    const auto begin     = std::min(chunk * chunksize, features.size());\n    const auto end       = std::min(begin + chunksize, features.size());\n    return make_range(begin, end);\n}\n', more=[('    map(features.size(), features_per_thread(features, concurrency()),\n        [&](const tensor_size_t begin, const tensor_size_t end, const size_t tnum)\n        {\n            assert(tnum < m_buffers.size());\n            for (tensor_size_t index = begin; index < end; ++index)\n            {\n                const auto ifeature = features(index);\n                callback(ifeature, tnum, dataset().select(samples, ifeature, m_buffers[tnum].m_sclass));', '    map(static_cast<tensor_size_t>(concurrency()),\n        [&](const tensor_size_t chunk, const size_t tnum)\n        {\n            assert(tnum < m_buffers.size());\n            const auto range = features_of_thread(features, concurrency(), chunk);\n            for (tensor_size_t index = range.begin(); index < range.end(); ++index)\n            {\n                const auto ifeature = features(index);\n                callback(ifeature, tnum, dataset().select(samples, ifeature, m_buffers[tnum].m_sclass));')]),
     dict(property="C15", name="factory-reader-early-return-nullptr-test", file="include/nano/core/stream.h", tu="src/gboost/model.cpp",
          old='    std::string type_id;\n    if (!::nano::read(stream, type_id))\n    {\n        stream.setstate(std::ios_base::failbit);\n    }\n\n    object = tobject::all().get(type_id);\n    if (!object)\n    {\n        stream.setstate(std::ios_base::failbit);\n        return stream;\n    }\n', new='    std::string type_id;\n    if (!::nano::read(stream, type_id))\n    {\n        stream.setstate(std::ios_base::failbit);\n        return stream;\n    }\n\n    object = tobject::all().get(type_id);\n    if (object == nullptr)\n    {\n        stream.setstate(std::ios_base::failbit);\n        return stream;\n    }\n'),
+    dict(property="C09", name="sum-reduce-backward-loop", file="include/nano/core/reduce.h", tu="src/linear/function.cpp",
+         old='    auto& accumulator0 = accumulators[0];\n    for (size_t i = 1; i < accumulators.size(); ++i)\n    {\n        accumulator0 += accumulators[i];\n    }\n    return (accumulator0 /= samples);', new='    for (size_t k = accumulators.size(); k > 1; --k)\n    {\n        accumulators[0] += accumulators[k - 1];\n    }\n    accumulators[0] /= samples;\n    return accumulators[0];'),
+    dict(property="C20", name="percentile-select-once-second-selection", file="include/nano/core/stats.h", tu="src/wlearner/util.cpp",
+         old='    if (lpos == rpos)\n    {\n        return from_position(lpos);\n    }\n    else\n    {\n        const auto lvalue = from_position(lpos);\n        const auto rvalue = from_position(rpos);\n        return (lvalue + rvalue) / 2;\n    }', new='    const auto left   = from_position(lpos);\n    const auto lvalue = static_cast<double>(*left);\n    if (lpos == rpos)\n    {\n        return lvalue;\n    }\n    else\n    {\n        const auto rvalue = static_cast<double>(*std::next(left));\n        return (lvalue + rvalue) / 2;\n    }', more=[('        std::nth_element(begin, middle, end);\n        return static_cast<double>(*middle);', '        std::nth_element(begin, middle, end);\n        if (std::next(middle) != end)\n        {\n            std::nth_element(std::next(middle), std::next(middle), end);\n        }\n        return middle;'), ('        std::advance(middle, pos);\n        return static_cast<double>(*middle);', '        std::advance(middle, pos);\n        return middle;')]),
     dict(property="C07", name="get-descent-test-inlined", file="src/lsearchk.cpp",
          old="    if (!state.has_descent(descent))", new="    if (const auto dg0 = state.dg(descent); !(dg0 < 0.0))"),
     dict(property="C07", name="lemarechal-swap-operands", file="src/lsearchk/lemarechal.cpp",
